@@ -133,6 +133,43 @@ def base_problems(cvxopt, rng, count):
             return quiet(solvers.coneqp, P, q, None, None, None, Ae, be, kktsolver=inj.kktsolver,
                          options={'show_progress': False})
         out.append(('coneqp_nocone%d' % i, 'coneqp', run_coneqp0))
+        # --- conelp / coneqp with user-defined vector types: x is a Python list of two dense blocks, G and A are functions, the KKT solver
+        # works on the blocks (the documented xnewcopy / xdot / xaxpy / xscal interface): the solver must go through these hooks everywhere
+        n1 = 1
+        def xsplit(v): return [matrix(v[:n1], (n1, 1)), matrix(v[n1:], (len(v) - n1, 1))]
+        def xjoin(u): return matrix([u[0], u[1]])
+        def xnewcopy(u): return [+u[0], +u[1]]
+        def xdot(u, v): return blas.dot(u[0], v[0]) + blas.dot(u[1], v[1])
+        def xaxpy(u, v, alpha=1.0): blas.axpy(u[0], v[0], alpha); blas.axpy(u[1], v[1], alpha)
+        def xscal(alpha, u): blas.scal(alpha, u[0]); blas.scal(alpha, u[1])
+        def mkG(Gm):
+            def Gf(u, v, alpha=1.0, beta=0.0, trans='N'):
+                if trans == 'N':
+                    blas.scal(beta, v); blas.gemv(Gm, xjoin(u), v, alpha=alpha, beta=1.0)
+                else:
+                    w_ = Gm.T * u; xscal(beta, v); blas.axpy(w_[:n1], v[0], alpha); blas.axpy(w_[n1:], v[1], alpha)
+            return Gf
+        def Afun(u, v, alpha=1.0, beta=0.0, trans='N'):
+            if trans == 'N': blas.scal(beta, v)
+            else: xscal(beta, v)
+        def wrap_solver(f):
+            def solve(x, y, z):
+                xv = xjoin(x); f(xv, y, z); x[0][:] = xv[:n1]; x[1][:] = xv[n1:]
+            return solve
+        def run_conelp_custom(inj, G=G, h=h, c=c, dims=dims, A0=A0, xsplit=xsplit, mkG=mkG, Afun=Afun, wrap_solver=wrap_solver):
+            factor = misc.kkt_ldl(G, dims, A0)
+            inj.make = lambda W: wrap_solver(factor(W))
+            return quiet(solvers.conelp, xsplit(c), mkG(G), h, dims, Afun, matrix(0.0, (0, 1)), kktsolver=inj.kktsolver, xnewcopy=xnewcopy, xdot=xdot, xaxpy=xaxpy, xscal=xscal,
+                         options={'show_progress': False})
+        out.append(('conelpX%d' % i, 'conelp', run_conelp_custom))
+        def Pfun(u, v, alpha=1.0, beta=0.0, P=P):
+            w_ = P * xjoin(u); xscal(beta, v); blas.axpy(w_[:n1], v[0], alpha); blas.axpy(w_[n1:], v[1], alpha)
+        def run_coneqp_custom(inj, P=P, q=q, G=G, h=h, dims=dims, A0=A0, xsplit=xsplit, mkG=mkG, Afun=Afun, wrap_solver=wrap_solver, Pfun=Pfun):
+            factor = misc.kkt_ldl(G, dims, A0)
+            inj.make = lambda W: wrap_solver(factor(W, P))
+            return quiet(solvers.coneqp, Pfun, xsplit(q), mkG(G), h, dims, Afun, matrix(0.0, (0, 1)), kktsolver=inj.kktsolver, xnewcopy=xnewcopy, xdot=xdot, xaxpy=xaxpy, xscal=xscal,
+                         options={'show_progress': False})
+        out.append(('coneqpX%d' % i, 'coneqp', run_coneqp_custom))
         # --- cpl / cp : min c'x - sum log(1 - x_i^2)-type constraint / objective, |x_i| < 1, plus box rows
         Gc = matrix([[1.0 if a == b else 0.0 for a in range(n)] for b in range(n)]); hc = matrix([0.3 + 0.5 * rng.random() for _ in range(n)])
         dl = {'l': n, 'q': [], 's': []}
